@@ -227,6 +227,8 @@ func cmdCheck(args []string) int {
 				n = q.Unit + ".nopanic"
 			} else if q.Group == "locks" {
 				n = q.Unit + ".lock_discipline"
+			} else if q.Group == "frame" {
+				n = q.Unit + ".frame"
 			}
 			if n == f.Obligation {
 				q.Known = true
